@@ -106,6 +106,25 @@ fn explore(api: &Api, seed: u64, cx: &mut Cx) {
             }
         }
     }
+    // peers with SMALL coordinates (leading or trailing zero bytes in the encoding): with the key 1 the shared secret is the
+    // peer itself, so outputs with long runs of zero bytes occur (the classic place for a stripped-leading-zero slip)
+    if g != crate::groups::G::X25519 {
+        for (pi, peer) in g.small_valid_elems(4).into_iter().enumerate() {
+            for (kn, k) in keys.iter().take(6) {
+                cx.begin_case(json!({"check": "DH with a small-coordinate peer", "key": kn, "peer": hex::encode(&peer)}));
+                if !cx.state(&("dh-small", pi, kn)) {
+                    continue;
+                }
+                cx.edges += 1;
+                cx.path();
+                let m = sp.ke.dh(k, &peer);
+                match api.ke_dh(k, &peer) {
+                    Ok(x) if x == m => cx.outcome("dh-equals-reference"),
+                    other => cx.violate("dh/small-peer", format!("DH({}, small-coordinate peer) differs from the reference: {:?}", kn, other.map(hex::encode))),
+                }
+            }
+        }
+    }
     // Curve25519 only: every 32-byte string is a u-coordinate, so Diffie-Hellman must equal X25519 (RFC 7748) for
     // ARBITRARY peer values - points on the twist, points with a small-order component - not only for honest public keys
     if g == crate::groups::G::X25519 {
